@@ -37,6 +37,9 @@ def check(run):
     with vlib.Lock():
         pr = vlib.coq_prop("C19")
     run.add_proof(pr)
+    if run.tier == "thorough" and pr["ok"]:
+        import framecommon
+        framecommon.thorough_coqchk(run, "C19", broken)
     if not pr["ok"]:
         broken.append("props/C19.v or a dependency no longer checks: %s %s" % (pr["failed_at"], pr["errors"]))
     run.coverage["trusted_base"].append("coq/spec/SpecTables.v: hand transcription of the feature tables of specs/*.spec")
